@@ -216,6 +216,13 @@ func (e *env) frameLeaves(obj any, t *sdl.Type, fr *sdl.Frame) []reflect.Value {
 		return []reflect.Value{rw(rw(top.FieldByName(t.Name + "G" + fr.Field)).FieldByName("X" + fr.Field))}
 	case "ptrEmbed":
 		return []reflect.Value{rw(top.FieldByName(t.Name + "Q" + fr.Field))}
+	case "ptrEmbedSet":
+		// the embedded pointer already points at an object of the application's own
+		p := rw(top.FieldByName(t.Name + "Q" + fr.Field))
+		if p.IsNil() {
+			p.Set(reflect.New(p.Type().Elem()))
+		}
+		return []reflect.Value{rw(p.Elem().FieldByName("Y" + fr.Field))}
 	}
 	return nil
 }
@@ -619,7 +626,11 @@ func (e *env) main(inClose, closeReturned *bool) {
 			}
 			return nil
 		}
-		comps = append(comps, simrt.NewProc(pr.Class, pr.OrderClass, pr.Order, core))
+		if pr.Lazy {
+			comps = append(comps, simrt.NewLazyProc(pr.Class, pr.OrderClass, pr.Order, core))
+		} else {
+			comps = append(comps, simrt.NewProc(pr.Class, pr.OrderClass, pr.Order, core))
+		}
 		compIDs = append(compIDs, pr.ID)
 	}
 	for _, sc := range p.Scanners {
